@@ -36,7 +36,11 @@ MergeVerdicts(ev) ==
        \o (IF out # DesignMergeAdd(a, b) THEN <<"DEV_differs_from_transcribed_rule">> ELSE <<>>)
   ELSE (IF ~PropMergeSelect(a, b, out) THEN <<"merge_output_does_not_contain_operand", "PART_" \o PartName(MergeSelectParts(a, b, out))>> ELSE <<>>)
        \o (IF ev.same = 0 /\ out # DesignMergeSelect(a, b) THEN <<"DEV_differs_from_transcribed_rule">> ELSE <<>>)
-Verdicts(ev) == CASE ev.op = "mul" -> MulVerdicts(ev) [] ev.op = "acc" -> AccVerdicts(ev) [] ev.op = "add" -> AddVerdicts(ev)
+\* {op:"fmul", wf, xf: float width of the operand (0: not a float), outf: the reported type is floating point, outbits}
+FloatVerdicts(ev) ==
+  (IF ev.outf # 1 \/ ev.outbits < ev.wf \/ ev.outbits < ev.xf THEN <<"float_product_not_representable">> ELSE <<>>)
+  \o (IF ev.kind # "mul" THEN <<"wrong_implementation_kind">> ELSE <<>>)
+Verdicts(ev) == CASE ev.op = "mul" -> MulVerdicts(ev) [] ev.op = "fmul" -> FloatVerdicts(ev) [] ev.op = "acc" -> AccVerdicts(ev) [] ev.op = "add" -> AddVerdicts(ev)
                   [] ev.op = "merge" -> MergeVerdicts(ev)
                   [] ev.op = "alias" -> (IF ev.same = 1 THEN <<>> ELSE <<"earlier_result_changed_by_a_later_call">>)
 Init == i = 1
